@@ -16,12 +16,34 @@ from pathlib import PurePath
 from spacepackets.countdown import Countdown
 
 from . import clock
+from .snapshot import CONST_IDS as _CONST_IDS
 
 _ATOM = (int, float, str, bytes, bool, type(None))
 
 
 class CanonError(Exception):
     pass
+
+
+# Configuration objects of the current world (snapshot.CONSTS) are never mutated by the code under
+# test. Their canonical string is computed once per object and re-verified by verify_consts() (a
+# mutation is a harness error, never a silently merged state).
+_CONST_CACHE: dict = {}  # id -> (object kept alive, canonical string)
+
+# exact type -> function returning the canonical string of an immutable value object
+ATOMIZERS: dict = {}
+
+
+def verify_consts() -> None:
+    for oid, (o, s) in list(_CONST_CACHE.items()):
+        out: list = []
+        _walk_obj(o, out, {}, 0)
+        if "".join(out) != s:
+            raise CanonError(f"configuration object {type(o).__name__} was mutated by the code under test: {s[:200]} -> {''.join(out)[:200]}")
+
+
+def reset_consts() -> None:
+    _CONST_CACHE.clear()
 
 
 def _walk(o, out: list, memo: dict, depth: int = 0) -> None:
@@ -63,6 +85,24 @@ def _walk(o, out: list, memo: dict, depth: int = 0) -> None:
     if isinstance(o, (type, logging.Logger)) or callable(o) and not hasattr(o, "__dict__"):
         out.append("T" + getattr(o, "__qualname__", repr(t)))
         return
+    az = ATOMIZERS.get(t)
+    if az is not None:
+        out.append(az(o))
+        return
+    if id(o) in _CONST_IDS:
+        hit = _CONST_CACHE.get(id(o))
+        if hit is None:
+            sub: list = []
+            _walk_obj(o, sub, {}, depth)
+            hit = (o, f"K{_CONST_IDS[id(o)]}")
+            _CONST_CACHE[id(o)] = (o, "".join(sub))
+        out.append(f"K{_CONST_IDS[id(o)]}")
+        return
+    _walk_obj(o, out, memo, depth)
+
+
+def _walk_obj(o, out: list, memo: dict, depth: int) -> None:
+    t = type(o)
     # mutable from here on: sharing matters
     oid = id(o)
     if oid in memo:
